@@ -11,7 +11,7 @@ if ! VERIF_ROOT=$V VERIF_REPO=$WT $V/scripts/build.sh $B > $B.log 2>&1; then ech
 ROOT=/var/tmp/mutroot-$NAME; mkdir -p $ROOT/out $ROOT/evidence; cp $V/known_findings.txt $ROOT/
 for P in "$@"; do
   s=$(date +%s)
-  VERIF_ROOT=$ROOT $B/simrun -prop $P -tier quick -bin $B/h.test > $ROOT/$P.log 2>&1; rc=$?
+  VERIF_ROOT=$ROOT $B/simrun -prop $P -tier ${TIER:-quick} ${RUNS:+-runs $RUNS} ${WALL:+-wall $WALL} -bin $B/h.test > $ROOT/$P.log 2>&1; rc=$?
   echo "$NAME $P rc=$rc $(( $(date +%s)-s ))s :: $(grep -a -A2 '^VIOLATION' $ROOT/$P.log | head -3 | tr '\n' ' ' | cut -c1-330) $(grep -a HARNESS-TROUBLE $ROOT/$P.log | head -1 | cut -c1-200)"
   if [ $rc = 1 ] && [ -n "$KEEP_REPLAY" ]; then mkdir -p $KEEP_REPLAY; cp $(grep -a -m1 '^VIOLATION' $ROOT/$P.log | sed 's/.*replay=//') $KEEP_REPLAY/$NAME-$P.replay.json 2>/dev/null; fi
 done
